@@ -2,6 +2,7 @@ package rules
 
 import (
 	"go/token"
+	"go/types"
 
 	"golang.org/x/tools/go/ssa"
 
@@ -9,40 +10,96 @@ import (
 	"charonverif/internal/rt"
 )
 
+// c17W5: the channel a V2 reader blocks on is the value of MemDBV2.notify observed in the SAME critical section
+// as the lookup of the data map that preceded the wait. The rule is decided on the explored paths of Await
+// (helpers, closures and deferred unlocks followed), not on the shape of the code: a critical section is the
+// stretch between an acquisition of the RWMutex and its release; every read of the notify field and every
+// lookup of the data map is stamped with the section it happened in.
 func c17W5(c *rt.Ctx) {
 	c.Rule("W5", 1, func() {
-		n := 0
-		for _, fn := range an.PkgFuncs(c.SSAPkg("core/aggsigdb")) {
-			for _, in := range an.Instrs(fn, false) {
-				if !isLoadOfField(in, aggV2+".notify") {
-					continue
-				}
-				// Store closes and replaces it under the write lock (W2/W4)
-				if an.FuncName(fn) == aggV2+".Store" {
-					continue
-				}
-				n++
-				good := false
-				for _, in2 := range an.Instrs(fn, false) {
-					lk, ok := in2.(*ssa.Lookup)
-					if !ok || !lk.CommaOk || !isFieldMap(aggV2+".data")(lk.X) || !an.Dominates(lk, in) {
-						continue
+		await := c.Fn(aggV2 + ".Await")
+		funcs := an.PkgFuncs(c.SSAPkg("core/aggsigdb"))
+		tr := &an.Tracer{Root: await}
+		res := tr.Run()
+		h1617Dump("C17 MemDBV2.Await", res)
+		if res.Truncated || len(res.Paths) == 0 {
+			c.Bail("MemDBV2.Await: path enumeration failed")
+		}
+		nf, df := aggV2+".notify", aggV2+".data"
+		agg := newAgg(c)
+		construct := func(in ssa.Instruction) string {
+			return an.FuncName(in.Parent()) + " reads notify in the lookup's critical section"
+		}
+		const detail = "the notification channel is read outside the critical section of the lookup that missed: a Store in between replaces it and the reader sleeps on the new channel although its value is stored"
+		waits := 0
+		for _, p := range res.Paths {
+			section, next := 0, 0
+			loadSection := map[*an.Sym]int{}
+			loadPos := map[*an.Sym]int{}
+			lastLookup, lookupPos := -1, -1 // section / position of the latest lookup of the data map (section 0: outside any)
+			for i, e := range p.Evs {
+				switch e.Kind {
+				case "call":
+					switch e.Name {
+					case "sync.RWMutex.RLock", "sync.RWMutex.Lock":
+						next++
+						section = next
+					case "sync.RWMutex.RUnlock", "sync.RWMutex.Unlock":
+						section = 0
 					}
-					// no explicit unlock between the lookup and the load
-					u := an.PathThrough(lk, in, func(x ssa.Instruction) bool {
-						call, ok := x.(*ssa.Call)
-						return ok && an.Static("sync.RWMutex.RUnlock", "sync.RWMutex.Unlock")(&call.Call)
-					})
-					if u == nil {
-						good = true
+				case "lookup":
+					if isFieldSym(e.Args[0], df) || isFieldMap(df)(e.In.(*ssa.Lookup).X) {
+						lastLookup, lookupPos = section, i
+					}
+				case "load":
+					if e.Res != nil && e.Res.Kind == an.KInit && isFieldSym(e.Res, nf) && e.Args[0].Kind == an.KAddr && isFieldSym(e.Args[0], nf) {
+						loadSection[e.Res] = section
+						loadPos[e.Res] = i
+					}
+				case "select", "recv":
+					var chans []*an.Sym
+					if e.Kind == "recv" {
+						chans = append(chans, e.Args[0])
+					} else if e.Blocking {
+						for _, st := range e.States {
+							if st.Dir == types.RecvOnly {
+								chans = append(chans, st.Chan)
+							}
+						}
+					}
+					for _, ch := range chans {
+						if ch == nil || ch.Kind != an.KInit || !isFieldSym(ch, nf) {
+							continue
+						}
+						waits++
+						ld, _ := ch.V.(ssa.Instruction)
+						if ld == nil {
+							ld = e.In
+						}
+						s, seen := loadSection[ch]
+						// safe: observed in the critical section of the latest lookup, or observed before that lookup
+						// (a Store after the observation closes the observed channel, the wait returns at once)
+						good := seen && ((s != 0 && s == lastLookup) || (lookupPos >= 0 && loadPos[ch] < lookupPos))
+						agg.check(construct(ld), posOf(ld), good, detail)
 					}
 				}
-				c.Check(an.FuncName(fn)+" reads notify in the lookup's critical section", in.Pos(), good,
-					"the notification channel is read outside the critical section of the lookup that missed: a Store in between replaces it and the reader sleeps on the new channel although its value is stored")
 			}
 		}
-		if n == 0 {
-			c.Unsure("MemDBV2.notify", token.NoPos, "no reader of the notification channel found")
+		// every other reader of the field must have been seen on a path of Await (Store and the constructor excepted)
+		storeTree := c17Reach(c.Fn(aggV2 + ".Store"))
+		for _, fn := range funcs {
+			if storeTree[fn] {
+				continue
+			}
+			for _, in := range an.Instrs(fn, false) {
+				if isLoadOfField(in, nf) && !res.Visited[in] {
+					agg.unsure(construct(in), posOf(in), "a read of the notification channel that is not on any explored path of Await")
+				}
+			}
+		}
+		agg.flush()
+		if waits == 0 {
+			c.Unsure("MemDBV2.notify", token.NoPos, "no reader blocking on the notification channel found on the paths of Await")
 		}
 	})
 }
